@@ -416,7 +416,7 @@ def run_shard(spec):
     i = 0
     while i < spec["n"] and not sh.out_of_time():
         i += 1
-        case = gen_case(rng, dict(bytes_defaults=0.0), dict(size_budget=80, big=0.01))
+        case = gen_case(rng, dict(bytes_defaults=0.3, null_ns_inside=0.05, union_default_any=True), dict(size_budget=80, big=0.01))
         recs = gen_records(rng, case, rng.choice([0, 1, 2, 3, 5, 9, 20]))
         sh.feat(case["features"])
         if i % 2:
